@@ -2,6 +2,7 @@ package main
 
 import (
 	"bytes"
+	"strings"
 
 	"mvdan.cc/garble/internal/symx"
 )
@@ -19,6 +20,10 @@ func asmWorld(curObf, depObf bool) (*transformer, *listedPackage, *listedPackage
 	sharedCache.ListedPackages.set(cur.ImportPath, cur)
 	sharedCache.ListedPackages.set(dep.ImportPath, dep)
 	sharedCache.ListedPackages.set("runtime", rt)
+	// an obfuscated std package that keeps its import path and some of its names (compiler intrinsics)
+	bits := &listedPackage{Name: "bits", ImportPath: "math/bits", Standard: true, ToObfuscate: depObf}
+	sharedCache.ListedPackages.set(bits.ImportPath, bits)
+	cur.Imports = append(cur.Imports, "math/bits")
 	return &transformer{curPkg: cur}, cur, dep
 }
 
@@ -45,9 +50,13 @@ func obfName(lpkg *listedPackage, name string) string {
 	return name
 }
 
+// obfPath is the package qualifier as the assembler reads it: the (possibly
+// kept) import path with the assembler's stand-ins for '/' and '.'.
 func obfPath(lpkg *listedPackage, asmPath string) string {
 	if lpkg.ToObfuscate {
-		return lpkg.obfuscatedImportPath()
+		p := lpkg.obfuscatedImportPath()
+		p = strings.ReplaceAll(p, "/", "∕")
+		return strings.ReplaceAll(p, ".", "·")
 	}
 	return asmPath
 }
@@ -61,7 +70,15 @@ func H_C01_asm_names() {
 	rt, _ := sharedCache.ListedPackages.get("runtime")
 	name := asciiIdent("name", 1+symx.Choose(tier(1, 2)))
 	var in, want string
-	switch symx.Choose(10) {
+	switch symx.Choose(12) {
+	case 10: // a compiler intrinsic of another package keeps its name, and that package keeps its path
+		bits, _ := sharedCache.ListedPackages.get("math/bits")
+		in = "JMP math∕bits·Add64(SB); CALL ·" + name + "(SB)"
+		want = "JMP " + obfPath(bits, "math∕bits") + "·" + obfName(bits, "Add64") + "(SB); CALL ·" + obfName(cur, name) + "(SB)"
+	case 11: // an ordinary function of that package is renamed; a local function that happens to share an intrinsic's name too
+		bits, _ := sharedCache.ListedPackages.get("math/bits")
+		in = "CALL math∕bits·" + name + "(SB); CALL ·Add64(SB)"
+		want = "CALL " + obfPath(bits, "math∕bits") + "·" + obfName(bits, name) + "(SB); CALL ·" + obfName(cur, "Add64") + "(SB)"
 	case 0: // unqualified definition
 		in = "TEXT ·" + name + "(SB),$0-24"
 		want = "TEXT ·" + obfName(cur, name) + "(SB),$0-24"
